@@ -352,3 +352,9 @@ Proof. vm_compute. reflexivity. Qed.
 Example direct_not_enabled :
   run dinit [ORecv] = None /\ run dinit [OClose; OClose] = None.
 Proof. vm_compute. auto. Qed.
+
+Example run_prefix_nonvacuous :
+  run dinit ([OSend [1]; OSend [2]; ORecv] ++ [ORecv; OClose]) = Some ({| dqueue := []; dclosed := true |}, [[1]; [2]]) /\
+  run dinit [OSend [1]; OSend [2]; ORecv] = Some ({| dqueue := [[2]]; dclosed := false |}, [[1]]) /\
+  run {| dqueue := [[2]]; dclosed := false |} [ORecv; OClose] = Some ({| dqueue := []; dclosed := true |}, [[2]]).
+Proof. vm_compute. auto. Qed.
